@@ -7,7 +7,7 @@ from . import groupfam, groupfull, tlc
 from .check_conn import judge
 from .report import run_check
 
-GOALS = ["Goal_error_after_stale_timer", "Goal_stop_during_prepare", "Goal_evicted_as_leader", "Goal_consumer_error_during_join"]
+GOALS = ["Goal_leader_again_more_partitions", "Goal_error_after_stale_timer", "Goal_stop_during_prepare", "Goal_evicted_as_leader", "Goal_consumer_error_during_join"]
 INVS = ["C16_join_clean", "C16_start_current", "C16_evicted_stop", "C16_one_exchange", "C16_hb_stable", "C16_quiet_after_stop",
         "C17_never_idle", "C17_fatal_surfaces"]
 
@@ -51,7 +51,7 @@ def gsig(steps, line):
     return ">".join((r["e"]["a"] + (":" + r["e"]["k"] if r["e"]["k"] else "")) for r in steps[max(0, line - 3):line])
 
 
-def run_group(chk, prop, tier, seed):
+def run_group(chk, prop, tier, seed, alias=None):
     thorough = tier == "thorough"
     rng = random.Random(seed)
     for ci, cfg in enumerate(groupfam.CONFIGS):
@@ -99,7 +99,16 @@ def run_group(chk, prop, tier, seed):
         results, _ = tlc.validate_traces(wd, "Group_Trace", traces, tdefs, tlines, timeout=1500)
         chk.add_traces(len(traces), sum(len(t["steps"]) for t in traces))
         chk.sample({"family": "group", "config": cfg["name"], "source": sources[-1], "trace": traces[-1]["steps"][:6]})
-        judge(chk, prop, "group[%s]" % cfg["name"], traces, results, lambda t: t["steps"], gsig, sources)
+        judge(chk, prop, "group[%s]" % cfg["name"], traces, results, lambda t: t["steps"], gsig, sources, alias=alias)
+
+
+def leader_partitions(chk, tier, seed):
+    """C15, as seen through the member that leads: every partition its lookup reports is in the assignment it syncs"""
+    def alias(clause, step):
+        if clause == "C17.rejoin" and step["e"]["a"] in ("JoinDone", "PartsDone"):
+            return "C15.leader_assigns_all"
+        return None
+    run_group(chk, "C15", tier, seed, alias=alias)
 
 
 def fsig(steps, line):
@@ -153,7 +162,9 @@ def main(prop, tier, seed, replay_file):
         tdefs, tlines = trace_cfg(cfg)
         results, _ = tlc.validate_traces(wd, "Group_Trace", [tr], tdefs, tlines, workers=1)
         print(json.dumps({"trace": tr, "result": results[0]}, indent=1))
-        raise SystemExit(1 if [c for c, _ in results[0]["viol"] if c.startswith(prop + ".")] else 0)
+        # (under C15 the same executions are judged through an alias of the C17 clause names)
+        bad = [c for c, _ in results[0]["viol"] if c.startswith(prop + ".") or (prop == "C15" and not c.startswith("ENV."))]
+        raise SystemExit(1 if bad else 0)
 
     def body(chk):
         chk.assumptions += [
